@@ -309,7 +309,7 @@ func runCheck(prop, tier, repo string, verbose, safety bool, timeout int) int {
 		}
 	}
 	if timeout == 0 {
-		timeout = 8
+		timeout = 20
 		if tier == "thorough" {
 			timeout = 60
 		}
